@@ -80,6 +80,89 @@ pub fn check_mutated<F: Family>(m: &mutate::Mutated, what: &str) -> Result<(), S
     Ok(())
 }
 
+/// The public decoders of the property sections (`XProperties::decode_async(reader, packet_type)`, `WillProperties`)
+/// called directly on a section: Ok(()) / Err. None for v3 and for types without properties.
+fn props_level(typ: u8, will: bool, section: &[u8]) -> Option<Result<(), mqtt_proto::v5::ErrorV5>> {
+    use futures_lite::future::block_on;
+    use mqtt_proto::v5::{self, PacketType as T};
+    let mut r: &[u8] = section;
+    if will {
+        return Some(block_on(v5::WillProperties::decode_async(&mut r)).map(|_| ()));
+    }
+    Some(match typ {
+        1 => block_on(v5::ConnectProperties::decode_async(&mut r, T::Connect)).map(|_| ()),
+        2 => block_on(v5::ConnackProperties::decode_async(&mut r, T::Connack)).map(|_| ()),
+        3 => block_on(v5::PublishProperties::decode_async(&mut r, T::Publish)).map(|_| ()),
+        4 => block_on(v5::PubackProperties::decode_async(&mut r, T::Puback)).map(|_| ()),
+        5 => block_on(v5::PubrecProperties::decode_async(&mut r, T::Pubrec)).map(|_| ()),
+        6 => block_on(v5::PubrelProperties::decode_async(&mut r, T::Pubrel)).map(|_| ()),
+        7 => block_on(v5::PubcompProperties::decode_async(&mut r, T::Pubcomp)).map(|_| ()),
+        8 => block_on(v5::SubscribeProperties::decode_async(&mut r, T::Subscribe)).map(|_| ()),
+        9 => block_on(v5::SubackProperties::decode_async(&mut r, T::Suback)).map(|_| ()),
+        10 => block_on(v5::UnsubscribeProperties::decode_async(&mut r, T::Unsubscribe)).map(|_| ()),
+        11 => block_on(v5::UnsubackProperties::decode_async(&mut r, T::Unsuback)).map(|_| ()),
+        14 => block_on(v5::DisconnectProperties::decode_async(&mut r, T::Disconnect)).map(|_| ()),
+        15 => block_on(v5::AuthProperties::decode_async(&mut r, T::Auth)).map(|_| ()),
+        _ => return None,
+    })
+}
+
+/// When a catalogue malformation sits inside a property section (everything else of the frame is as in the valid
+/// packet, the section is spelled with its natural length), the section's own public decoder classifies it like the
+/// packet decoders do.
+fn check_props_level(orig: &crate::model::WPacket, mutated: &crate::model::WPacket, m: &mutate::Mutated, what: &str) -> Result<bool, String> {
+    if orig.fam != crate::model::Fam::V5 || orig.first != mutated.first || mutated.rl_delta != 0 {
+        return Ok(false);
+    }
+    let want = match &m.expect {
+        Expect::All(e) => match <V5 as Family>::from_exp(e) {
+            Some(w) => w,
+            None => return Ok(false),
+        },
+        _ => return Ok(false),
+    };
+    for will in [false, true] {
+        let (po, pm) = if will { (mutate::will_props(orig), mutate::will_props(mutated)) } else { (mutate::main_props(orig), mutate::main_props(mutated)) };
+        let (po, pm) = match (po, pm) {
+            (Some(a), Some(b)) => (a, b),
+            _ => continue,
+        };
+        if po == pm || pm.declared.is_some() {
+            continue;
+        }
+        // is this section the only thing that differs?
+        let mut back = mutated.clone();
+        match if will { mutate::will_props_mut(&mut back) } else { mutate::main_props_mut(&mut back) } {
+            Some(slot) => *slot = po.clone(),
+            None => continue,
+        }
+        if back != *orig {
+            continue;
+        }
+        // (the valid section is accepted by the same entry point: otherwise the comparison means nothing)
+        match props_level(orig.typ(), will, &crate::model::serialize_props(po)) {
+            Some(Ok(())) => {}
+            _ => continue,
+        }
+        let sec = crate::model::serialize_props(pm);
+        match props_level(orig.typ(), will, &sec) {
+            Some(Err(e)) if e == want => return Ok(true),
+            Some(other) => {
+                return Err(format!(
+                    "{}: the public decoder of the {}property section on its own ({}) returned {:?} instead of Err({:?}) - the error the packet decoders give for the same section",
+                    what,
+                    if will { "will " } else { "" },
+                    hex_short(&sec, 64),
+                    other,
+                    want
+                ))
+            }
+            None => {}
+        }
+    }
+    Ok(false)
+}
+
 fn classify<F: Family>(p: &F::Packet, t: &mut Tape, ctx: &mut Ctx) -> CaseResult {
     let w = F::project(p);
     // the long-form projection must itself be accepted (otherwise the catalogue has no valid base)
@@ -94,7 +177,8 @@ fn classify<F: Family>(p: &F::Packet, t: &mut Tape, ctx: &mut Ctx) -> CaseResult
     let mut applied = 0u64;
     for i in chosen {
         let s = &sites[i];
-        let m = match mutate::apply(&w, s, t) {
+        let mut mw: Option<crate::model::WPacket> = None;
+        let m = match mutate::apply_ex(&w, s, t, &mut mw) {
             Some(m) => m,
             None => {
                 ctx.label("site-not-applicable");
@@ -104,6 +188,13 @@ fn classify<F: Family>(p: &F::Packet, t: &mut Tape, ctx: &mut Ctx) -> CaseResult
         let what = format!("{} {} with {} [{}]", F::FAM.name(), tn, s.entry.name(), m.desc);
         if let Err(msg) = check_mutated::<F>(&m, &what) {
             return Err(Violation::new(format!("{}\n  base packet {}", msg, fam::render(p))));
+        }
+        if let Some(mw) = &mw {
+            match check_props_level(&w, mw, &m, &what) {
+                Ok(true) => ctx.label("property-section-decoder-agrees"),
+                Ok(false) => {}
+                Err(msg) => return Err(Violation::new(format!("{}\n  base packet {}", msg, fam::render(p)))),
+            }
         }
         applied += 1;
         ctx.label(&format!("entry:{}", s.entry.name()));
@@ -157,5 +248,6 @@ pub fn run(env: &mut Env) -> RunResult {
         // (Utf8Straddle only exists where there are user properties, i.e. in v5: it is in ALL_ENTRIES)
         env.require("c20.catalogue.v5", &format!("entry:{}", e.name()));
     }
+    env.require("c20.catalogue.v5", "property-section-decoder-agrees");
     Ok(())
 }
